@@ -58,15 +58,17 @@ static void * th_create(void * a) {
 
 static void * th_ops(void * a) {
   struct targ * t = a; int i; uint64_t s = t->seed; unsigned long ctr = 0;
+  int hot[8];   /* most operations of a thread go to a few indices, so that values are read back */
+  for (i = 0; i < 8; i++) hot[i] = (int)(sm_next(&s) % g_nkeys);
   for (i = 0; i < t->nops; i++) {
     uint64_t r = sm_next(&s);
-    int key = g_keys[(r >> 8) % g_nkeys];
+    int ki = ((r >> 40) % 10 < 7) ? hot[(r >> 8) % 8] : (int)((r >> 8) % g_nkeys);
+    int key = g_keys[ki];
     int what = r % 100;
     struct rec * e = &t->log[t->nlog++];
     e->key = key; e->worker = myth_get_worker_num();
     if (what < 45) {
       /* values are stored only under live keys and under out-of-range indices (which must be rejected) */
-      int ki = (r >> 8) % g_nkeys;
       if (ki >= g_nlive && key >= 0 && key < 1024) { e->op = 'g'; e->val = (unsigned long)myth_getspecific(key); continue; }
       e->op = 's';
       e->val = (what < 5) ? 0UL : (((unsigned long)(t->phase * 100 + t->tid + 1) << 32) | (++ctr << 4) | 1UL);
